@@ -171,10 +171,15 @@ fn run_seq(sc: &Scenario, sid: u64) -> SeqOutcome {
     let mut viol: Vec<V> = Vec::new();
     let mut obs: Vec<(&'static str, u64)> = Vec::new();
     let mut builder = QueuingMetricSink::builder();
+    // the order of the builder calls must not matter: alternate it
+    let handler_first = sid % 2 == 0;
+    if sc.handler && handler_first {
+        builder = builder.with_error_handler(handler_for(sh.clone()));
+    }
     if let Some(c) = sc.cap {
         builder = builder.with_capacity(c);
     }
-    if sc.handler {
+    if sc.handler && !handler_first {
         builder = builder.with_error_handler(handler_for(sh.clone()));
     }
     let built = panics::guard(|| builder.build(GatedSink { sh: sh.clone() }));
